@@ -49,6 +49,15 @@ STALE_TOK = 110    # stale tmp_i had content [STALE_TOK + i] before
 W_MODES = set('wxa+')
 
 
+def is_big(ck: Ck) -> bool:
+    """Thorough budgets: thorough tier, a broken tie, or an AtomicWriter AST digest the model was not written against."""
+    return ck.thorough or bool(ck.tie_broken) or bool(ck.extra.get('escalated_by_digest'))
+
+
+def budget(ck: Ck, quick: int, thorough: int) -> int:
+    return thorough if is_big(ck) else quick
+
+
 class BodyError(Exception):
     """Raised by the caller's body in 'raise' scenarios."""
 
@@ -585,7 +594,7 @@ def single_campaign(ck: Ck, scs: list[dict], do_model: bool) -> None:
         # ---- a kill before every operation (k operations completed), executed in a forked child
         # long traces (BSP.save: one raw write per deferred header slot): the quick tier executes every kill/fault point
         # that is not a write plus a seeded sample of the writes; the thorough tier (and any broken tie) executes all
-        full = len(ops0) <= 24 or ck.thorough or bool(ck.tie_broken)
+        full = len(ops0) <= 24 or is_big(ck)
         keep = {o['k'] for o in ops0 if o['op'] != 'write'} | {len(ops0)} | {0}
         wks = [o['k'] for o in ops0 if o['op'] == 'write']
         keep |= set(wks[:2] + wks[-2:] + ck.rng.sample(wks, min(len(wks), 10)))
@@ -746,7 +755,7 @@ def scenarios(ck: Ck) -> list[dict]:
     add('raise-small-buffer', chunks=c3 + [b'DDDDDDDD'], bufsize=6, raise_after=3)
     add('dest-named-like-temp', chunks=c3, bufsize=1, dest='tmp_1', init={'keep.txt': b'keep'})
     # random scenarios
-    for _ in range(ck.budget(4, 40)):
+    for _ in range(budget(ck, 4, 40)):
         rng = ck.rng
         chunks = [bytes(rng.randrange(65, 91) for _ in range(rng.choice([1, 3, 8, 20]))) for _ in range(rng.choice([1, 2, 4, 6]))]
         init = {'keep.txt': b'keep'}
@@ -763,7 +772,7 @@ def scenarios(ck: Ck) -> list[dict]:
 def bsp_scenarios(ck: Ck) -> list[dict]:
     src = small_bsp(ck.scratch)
     out = []
-    for bs in ([512] if not ck.thorough and not ck.tie_broken else [256, 1024, 8192]):
+    for bs in ([256, 1024, 8192] if is_big(ck) else [512]):
         out.append(dict(kind=f'bsp-save-buf{bs}', dest='maps/test.bsp', bsp=src, bufsize=bs,
                         init={'maps/test.bsp': b'OLD-BSP-CONTENT', 'maps/other.bsp': b'other', 'maps/tmp_1': b'STALE1'}))
     return out
@@ -818,7 +827,7 @@ def run_two(scs: tuple[dict, dict], root: str, prefix: list[int], init: dict[str
 
 def two_writer_campaign(ck: Ck, do_model: bool) -> None:
     work = str(ck.scratch / 'c12_two')
-    big = ck.thorough or bool(ck.tie_broken)
+    big = is_big(ck)
     pairs = [
         # (tag, writer A, writer B, initial directory, schedule limit)
         ('plain', dict(dest='a.bin', chunks=[b'A1']), dict(dest='b.bin', chunks=[b'B1']),
@@ -997,7 +1006,7 @@ def run(ck: Ck) -> None:
     dig = side.get('digests', {})
     if dig and (dig.get('__exit__'), dig.get('make_tempfile')) not in KNOWN_DIGESTS:
         ck.notes.append('AtomicWriter source differs from the versions the model was written against: thorough budgets')
-        ck.tier = 'thorough' if os.environ.get('VERIF_NO_ESCALATE') is None else ck.tier
+        ck.extra['escalated_by_digest'] = True
     import time
     stage: dict[str, float] = {}
     ck.extra['stage_seconds'] = stage
@@ -1040,7 +1049,9 @@ def single_campaign_bsp(ck: Ck, bscs: list[dict], do_model: bool) -> None:
 
 
 # digests (__exit__, make_tempfile) of the source versions the model was written against: pinned tree and repaired tree
-KNOWN_DIGESTS: set = set()
+KNOWN_DIGESTS: set = {('b5de1bf6643e', 'd204472bc290'),     # repaired tree (both fix commits)
+                      ('b5de1bf6643e', '729c8ddbf085'),     # first fix only
+                      ('92656bb58107', '729c8ddbf085')}     # pinned tree
 
 
 def replay(data: dict) -> int:
